@@ -190,7 +190,17 @@ CONTRACTS = {
     W + "sky_sep": dict(params=dict(pix1=PIX1, pix2=PIX1),
                         ret=lambda a: DEG),
     PKG + ".fitting.elliptical_gaussian": dict(
-        params=dict(sx=U("pix", "sigma ax1"), sy=U("pix", "sigma ax2"),
+        params=dict(x=U(idx=Idx("row", None, None)),
+                    y=U(idx=Idx("col", None, None)),
+                    xo=U(idx=Idx("row", None, None)),
+                    yo=U(idx=Idx("col", None, None)),
+                    sx=U("pix", "sigma ax1"), sy=U("pix", "sigma ax2"),
+                    theta=ANG),
+        ret=lambda a: TOP),
+    PKG + ".fitting.Cmatrix": dict(
+        params=dict(x=U(idx=Idx("row", None, None)),
+                    y=U(idx=Idx("col", None, None)),
+                    sx=U("pix", "sigma ax1"), sy=U("pix", "sigma ax2"),
                     theta=ANG),
         ret=lambda a: TOP),
     PKG + ".regions.Region.sky2ang": dict(
@@ -1452,6 +1462,42 @@ class ContractObs(Observer):
                                  "%s argument %s is in %s, radians expected"
                                  % (dotted, nm, sorted(a.unit)),
                                  {"arg": a.short()})
+        if dotted == "astropy.coordinates.SkyCoord" and len(args) >= 2:
+            # SkyCoord(lon, lat, ...): first a longitude, then a latitude
+            self.sites["call"] += 1
+            for k, want in ((0, "lon"), (1, "lat")):
+                a = args[k]
+                if a.kind is not None and a.kind & POS_KINDS and \
+                        want not in a.kind:
+                    self.add(it, node, "call",
+                             "SkyCoord argument %d is a %s, expected the %s"
+                             % (k + 1, sorted(a.kind & POS_KINDS),
+                                "longitude (ra / l)" if want == "lon"
+                                else "latitude (dec / b)"),
+                             {"arg": a.short()})
+            # DS9 vertices are printed as RA hours : Dec degrees; the region
+            # writer gets hour numerals by dividing the degrees by 15 (or by
+            # asking to_string for hours)
+            if it.fi.qualname.startswith(PKG + ".regions.") and \
+                    args[0].unit is not None and "deg" in args[0].unit and \
+                    "hour" not in args[0].unit:
+                fmt_hours = any(
+                    isinstance(c, ast.Call) and
+                    isinstance(c.func, ast.Attribute) and
+                    c.func.attr == "to_string" and any(
+                        k.arg == "unit" and "hour" in norm(k.value)
+                        for k in c.keywords)
+                    for c in ast.walk(it.fi.node))
+                decl = kwargs.get("unit")
+                decl_hours = decl is not None and decl.elts is not None \
+                    and False
+                if not fmt_hours and not decl_hours:
+                    self.add(it, node, "call",
+                             "the right ascension handed to SkyCoord is in "
+                             "degrees and is printed as such: DS9 reads the "
+                             "first sexagesimal field of a vertex as HOURS "
+                             "(divide by 15 or format with unit=hour)",
+                             {"arg": args[0].short()})
         if dotted == "healpy.query_disc" and len(args) >= 3:
             a = args[2]
             self.sites["call"] += 1
